@@ -28,7 +28,11 @@ const (
 	// StoreCollide: keys and values chosen so that different (value, key) tuples
 	// have equal concatenations ("ab"+"c" = "a"+"bc")
 	StoreCollide = "collide"
+	// StoreUnicode: non-ASCII (valid UTF-8) and control characters in keys and values
+	StoreUnicode = "unicode"
 )
+
+var valuePoolUnicode = []string{"é", "日本", "naïve", "ß", "Ünï", "a\x00b", "tab\there", "line\nbreak", "😀", "٣", "１２", " 12 ", "1e2", "0x10", "+5", "-0", "1_000", "NaN", "Inf"}
 
 func genValue(r *Rng, style string) string {
 	switch style {
@@ -38,6 +42,11 @@ func genValue(r *Rng, style string) string {
 		return pick(r, valuePoolText)
 	case StoreJSON:
 		return pick(r, valuePoolJSON)
+	case StoreUnicode:
+		if r.Chance(0.7) {
+			return pick(r, valuePoolUnicode)
+		}
+		return pick(r, valuePoolText)
 	case StoreNum:
 		if r.Chance(0.6) {
 			return pick(r, valuePoolInt)
@@ -75,6 +84,20 @@ func keyUniverse(nk, nm int) []string {
 func genStore(r *Rng, n int, style string) []KV {
 	if n <= 0 {
 		return []KV{}
+	}
+	if style == StoreUnicode {
+		base := []string{"k000", "k001", "k002", "k003", "k004", "k005", "ké", "k日", "k\x00", "k\x7f", "Ω", "é", "k00ß", "K000", "k 0"}
+		shuffle(r, base)
+		if n > len(base) {
+			n = len(base)
+		}
+		ks := append([]string{}, base[:n]...)
+		sort.Strings(ks)
+		out := make([]KV, len(ks))
+		for i, k := range ks {
+			out[i] = KV{k, genValue(r, style)}
+		}
+		return out
 	}
 	if style == StoreCollide {
 		keys := []string{"a", "ab", "abc", "b", "bc", "c", "ca", "cab", "x", "xa", "ax", "k0", "k00", "0", "00"}
